@@ -154,7 +154,7 @@ def _jose_to_ref(rng, index, ev, alg, form, res, tr):
     label = "%d.%d.j2r" % (index, ev)
     payload = c03._payload(rng.sub("payload"), form)
     key = c03._mk_key(rng.sub("key"), alg, "k-" + rng.pick(["1", "é"]) if rng.chance(0.5) else None)
-    extra = W.gen_extra(rng, 2)
+    extra = W.gen_extra(rng, 2, long_ok=True)
     if form in ("c7797", "f7797"):
         extra["b64"] = False
         extra["crit"] = ["b64"]
@@ -221,8 +221,8 @@ def _ref_to_jose(rng, index, ev, alg, form, res, tr):
     label = "%d.%d.r2j" % (index, ev)
     payload = c03._payload(rng.sub("payload"), form)
     kid = rng.pick([None, "k1", "ключ", "a\"b\\c", "é\U0001f511"])
-    key = c03._mk_key(rng.sub("key"), alg, kid)
-    extra = W.gen_extra(rng, 3)
+    key = c03._mk_key(rng.sub("key"), alg, kid, big=True)      # the peer may use keys of any size: the verifier only imports the public half
+    extra = W.gen_extra(rng, 3, long_ok=True)
     if form in ("c7797", "f7797"):
         extra["b64"] = False
         extra["crit"] = ["b64"]
